@@ -225,6 +225,19 @@ func copyTree(src, dst string) {
 	})
 }
 
+// flipHex changes the hex digit at position i of id.
+func flipHex(id string, i int) string {
+	b := []byte(id)
+	if b[i] == 'f' {
+		b[i] = '0'
+	} else if b[i] == '9' {
+		b[i] = 'a'
+	} else {
+		b[i]++
+	}
+	return string(b)
+}
+
 func hexClip(b []byte) string {
 	if len(b) > 48 {
 		return hex.EncodeToString(b[:48]) + "…"
@@ -281,6 +294,35 @@ func monC19(c *runCtx) {
 			}
 		}
 		c.restoreFile(r, rel)
+		// misplaced: the valid file under an id that differs from its own only in the fan-out byte (objects/<xx>/ is part
+		// of the name) or only in the last byte
+		for _, wrong := range []string{flipHex(id, 0), flipHex(id, 1), "00" + id[2:], "ff" + id[2:], flipHex(id, 39)} {
+			if wrong == id || !mine() {
+				continue
+			}
+			wp := filepath.Join(r.root, "objects", wrong[:2], wrong[2:])
+			if _, err := os.Stat(wp); err == nil {
+				continue // another valid object lives there
+			}
+			os.MkdirAll(filepath.Dir(wp), 0o777)
+			os.WriteFile(wp, valid, 0o666)
+			wh, _ := hex.DecodeString(wrong)
+			c.note("C19 GetObject misplaced id=%s real=%s", wrong, id)
+			c.call("GetObject", "misplaced", len(valid), func() string { return fmt.Sprintf("GetObject(%s) on the valid file of %s", wrong, id) }, func() string {
+				o, err := va.GetObject(r.root, va.SHA1(wh))
+				if err != nil {
+					return "error"
+				}
+				c.oracle("C19.wrong-content")
+				if got := gitfmt.ObjectID(o.Type.String(), o.Data); got != wrong {
+					c.fail("C19.wrong-content", "damaged-object-returned", "GetObject|misplaced", "GetObject(%s) returned the content of %s (%s/%d bytes), stored under the wrong name", wrong, got, o.Type, len(o.Data))
+					return "loaded-different"
+				}
+				return "loaded-equal"
+			})
+			os.Remove(wp)
+			os.Remove(filepath.Dir(wp)) // only if empty
+		}
 		// mutations of the INFLATED content: re-deflated for GetObject, and fed directly to the parsers
 		dec, err := gitfmt.DecodeObjectFile(valid)
 		if err != nil {
